@@ -44,6 +44,8 @@ type c03prog struct {
 	TwoSubs bool
 	// Refuse: the ledger refuses a Withdraw inside a running challenge period instead of waiting
 	Refuse bool
+	// RegFail: the first Register call of party RegFail-1 fails with a transient error (0: none)
+	RegFail int
 }
 
 func (p c03prog) name() string {
@@ -82,6 +84,9 @@ func (p c03prog) name() string {
 	}
 	if p.Refuse {
 		n += "/refuse"
+	}
+	if p.RegFail > 0 {
+		n += fmt.Sprintf("/regfail%d", p.RegFail-1)
 	}
 	return n
 }
@@ -191,6 +196,9 @@ func c03exec(t *testing.T, ssc schedrun.Scenario, o vsched.Options) (*vsched.Sch
 			decB += "aa" // one payment inside each sub-channel
 		}
 		l.RefuseEarly = pr.Refuse
+		if pr.RegFail > 0 {
+			l.FailRegister = map[channel.Index]bool{channel.Index(pr.RegFail - 1): true}
+		}
 		if pr.Final {
 			decB += "a"
 		}
@@ -347,6 +355,19 @@ func c03exec(t *testing.T, ssc schedrun.Scenario, o vsched.Options) (*vsched.Sch
 		case "BA":
 			obs.settle[1] = settle(1, false)
 			obs.settle[0] = settle(0, true)
+		case "ABe":
+			// B settles as soon as it has SEEN A's registration (its phase is Registered): inside the
+			// challenge period; a ledger that refuses early withdrawals makes B's first attempt fail,
+			// B repeats it after the period (documented usage)
+			done := make(chan struct{}, 1)
+			vsched.GoNamed("settle-A", func() { obs.settle[0] = settle(0, false); vsched.Send(done, struct{}{}) })
+			vsched.WaitCond("A-registered", func() bool { return len(l.RegLog) > 0 }) // (a condition must not take locks)
+			vsched.Sleep(time.Second)                                               // B's watcher relays the event, B's phase becomes Registered
+			if ph := chs[1].Phase(); ph != channel.Registered {
+				obs.errs = append(obs.errs, fmt.Sprintf("B's phase is %v one second after A's registration", ph))
+			}
+			obs.settle[1] = settle(1, true)
+			vsched.Recv(done)
 		default:
 			done := make(chan struct{}, 2)
 			vsched.GoNamed("settle-A", func() { obs.settle[0] = settle(0, false); vsched.Send(done, struct{}{}) })
@@ -418,6 +439,9 @@ func c03check(ssc schedrun.Scenario, s *vsched.Sched, o any) []schedrun.Verdict 
 	}
 	if pr.Refuse {
 		site += "/refuse"
+	}
+	if pr.RegFail > 0 {
+		site += "/regfail"
 	}
 	var out []schedrun.Verdict
 	seen := map[string]bool{}
@@ -582,6 +606,16 @@ func c03programs(thorough bool) (all []c03prog, small []c03prog) {
 		}
 	}
 	all = append(all, c03prog{Bal: [2]int64{5, 5}, Final: false, Settle: "par", Sub: true, Refuse: true})
+	// the second party settles inside the challenge period (refused by the ledger, repeated); a
+	// Register call that fails once
+	for _, seq := range [][]payStep{nil, {{0, 1, true}}} {
+		all = append(all, c03prog{Bal: [2]int64{5, 5}, Pays: seq, Final: false, Settle: "ABe", Refuse: true})
+	}
+	for _, st := range []string{"AB", "par"} {
+		for _, who := range []int{1, 2} {
+			all = append(all, c03prog{Bal: [2]int64{5, 5}, Pays: []payStep{{0, 1, true}}, Final: false, Settle: st, RegFail: who})
+		}
+	}
 	// sub-channel variants
 	for _, bal := range [][2]int64{{5, 5}, {10, 0}} {
 		for _, seq := range [][]payStep{nil, {{0, 1, true}}} {
